@@ -21,6 +21,13 @@ import BddVerif.Lemmas.AlgoEq2VarSetDriver
 #print axioms B.Props.C10.opt_dnf_roundtrip
 #print axioms B.Props.C10.opt_dnf_roundtrip_exactCard
 #print axioms B.Props.C10.mk_cnf_panics_iff
+#print axioms B.Props.C10.to_dnf_wfo
+#print axioms B.Props.C10.to_cnf_wfo
+#print axioms B.Props.C10.mk_dnf_to_dnf_canon
+#print axioms B.Props.C10.mk_cnf_to_cnf_canon
+#print axioms B.Props.C10.mk_dnf_to_opt_dnf_canon
+#print axioms B.Props.C10.opt_dnf_refuses_spurious_support
+#print axioms B.Props.C10.opt_dnf_unsat
 #print axioms B.AlgoEqIt.to_dnf_eq_model
 #print axioms B.AlgoEqIt.to_dnf_sem_translated
 #print axioms B.AlgoEqIt.to_cnf_eq_model
